@@ -36,6 +36,18 @@ Record deviations := mkDev {
 Definition all_off : deviations := mkDev false false false.
 Definition as_is : deviations := mkDev true true true.
 
+(* the except classes of all sites; [gen_classes] is what the source says now, [today_classes] what it said when the
+   findings were recorded (used only by the refutation lemmas, so that a repair of the source never breaks a proof) *)
+Record classes := mkCl {
+  c_do_func_call : N; c_call_expression : N; c_active_expr : N; c_trigger_watch : N; c_task_create : N;
+  c_service_legacy : N; c_run_coro : N; c_done_callback : N; c_cb_breaks : bool; c_check_expression : N;
+  c_service_dm : N; c_dm_call : N; c_load_file : N; c_load_scripts : N
+}.
+Definition gen_classes : classes :=
+  mkCl cc_do_func_call cc_call_expression cc_active_expr cc_trigger_watch cc_task_create cc_service_legacy cc_run_coro
+       cc_done_callback cb_loop_breaks cc_check_expression cc_service_dm cc_dm_call cc_load_file cc_load_scripts.
+Definition today_classes : classes := mkCl 1 1 1 1 1 1 1 1 true 1 1 0 1 1.
+
 (* does an except clause of class c (0/1/2, from the source) stop an exception of kind k *)
 Definition catches (dv : deviations) (c : N) (k : exckind) : bool :=
   match k with
@@ -68,48 +80,52 @@ Definition layer_step (dv : deviations) (st : ostate) (ly : layer) : ostate :=
   end.
 
 (* the class of the default subsystem's trigger-function wrapper: what the source has, or (conformant) at least Exception *)
-Definition dm_call_class (dv : deviations) : N := if d_dm_trig_nowrap dv then cc_dm_call else N.max 1 cc_dm_call.
+Definition dm_call_class (cl : classes) (dv : deviations) : N := if d_dm_trig_nowrap dv then c_dm_call cl else N.max 1 (c_dm_call cl).
 
 (* layers from the user code outwards *)
-Definition site (dv : deviations) (sub : subsystem) (e : entry) : list layer :=
+Definition site_c (cl : classes) (dv : deviations) (sub : subsystem) (e : entry) : list layer :=
   match sub, e with
-  | Legacy, ETrigFunc => [LCatchLog cc_do_func_call; LCatchOther cc_run_coro; LEnd SkAsyncio]
-  | Legacy, EExprState => [LCatchLog cc_call_expression; LLoop; LCatchOther cc_trigger_watch; LCatchOther cc_run_coro; LEnd SkHeld]
-  | Legacy, EExprEvent => [LCatchLog cc_call_expression; LLoop; LCatchOther cc_trigger_watch; LCatchOther cc_run_coro; LEnd SkHeld]
-  | Legacy, EActive => [LCatchLog cc_active_expr; LLoop; LCatchOther cc_trigger_watch; LCatchOther cc_run_coro; LEnd SkHeld]
-  | Legacy, ETaskCreate => [LCatchLog cc_task_create; LCatchOther cc_run_coro; LEnd SkAsyncio]
-  | Legacy, EService => [LCatchLog cc_service_legacy; LCatchOther cc_run_coro; LEnd SkHA]
-  | Dm, ETrigFunc => [LCatchLog (dm_call_class dv); LCatchOther cc_run_coro; LEnd SkAsyncio]
-  | Dm, EExprState => [LCatchLog cc_check_expression; LLoop; LEndLog]
-  | Dm, EExprEvent => [LCatchLog cc_check_expression; LEnd SkAsyncio]
-  | Dm, EActive => [LCatchLog cc_check_expression; LEnd SkAsyncio]
-  | Dm, ETaskCreate => [LCatchLog cc_task_create; LCatchOther cc_run_coro; LEnd SkAsyncio]
-  | Dm, EService => [LCatchLog cc_service_dm; LCatchOther cc_run_coro; LEnd SkHA]
+  | Legacy, ETrigFunc => [LCatchLog (c_do_func_call cl); LCatchOther (c_run_coro cl); LEnd SkAsyncio]
+  | Legacy, EExprState => [LCatchLog (c_call_expression cl); LLoop; LCatchOther (c_trigger_watch cl); LCatchOther (c_run_coro cl); LEnd SkHeld]
+  | Legacy, EExprEvent => [LCatchLog (c_call_expression cl); LLoop; LCatchOther (c_trigger_watch cl); LCatchOther (c_run_coro cl); LEnd SkHeld]
+  | Legacy, EActive => [LCatchLog (c_active_expr cl); LLoop; LCatchOther (c_trigger_watch cl); LCatchOther (c_run_coro cl); LEnd SkHeld]
+  | Legacy, ETaskCreate => [LCatchLog (c_task_create cl); LCatchOther (c_run_coro cl); LEnd SkAsyncio]
+  | Legacy, EService => [LCatchLog (c_service_legacy cl); LCatchOther (c_run_coro cl); LEnd SkHA]
+  | Dm, ETrigFunc => [LCatchLog (dm_call_class cl dv); LCatchOther (c_run_coro cl); LEnd SkAsyncio]
+  | Dm, EExprState => [LCatchLog (c_check_expression cl); LLoop; LEndLog]
+  | Dm, EExprEvent => [LCatchLog (c_check_expression cl); LEnd SkAsyncio]
+  | Dm, EActive => [LCatchLog (c_check_expression cl); LEnd SkAsyncio]
+  | Dm, ETaskCreate => [LCatchLog (c_task_create cl); LCatchOther (c_run_coro cl); LEnd SkAsyncio]
+  | Dm, EService => [LCatchLog (c_service_dm cl); LCatchOther (c_run_coro cl); LEnd SkHA]
   end.
 
 Definition start_of (o : outcome) : ostate :=
   mkO (match o with ORet => None | ORaise k => Some k end) [] true SkNone.
 
-Definition run_site (dv : deviations) (sub : subsystem) (e : entry) (o : outcome) : ostate :=
-  fold_left (layer_step dv) (site dv sub e) (start_of o).
+Definition run_site_c (cl : classes) (dv : deviations) (sub : subsystem) (e : entry) (o : outcome) : ostate :=
+  fold_left (layer_step dv) (site_c cl dv sub e) (start_of o).
+Definition site := site_c gen_classes.
+Definition run_site := run_site_c gen_classes.
 
 (* ---------- done-callbacks: Function.run_coro's finally loop ---------- *)
 Record cbres := mkCb { cb_ran : list bool; cb_logs : list logger; cb_sink : sink }.
 
-Fixpoint run_callbacks (dv : deviations) (outs : list outcome) : cbres :=
+Fixpoint run_callbacks_c (cl : classes) (dv : deviations) (outs : list outcome) : cbres :=
   match outs with
   | [] => mkCb [] [] SkNone
   | o :: rest =>
       let skip := mkCb (map (fun _ => false) rest) [] SkNone in
       match o with
-      | ORet => let r := run_callbacks dv rest in mkCb (true :: cb_ran r) (cb_logs r) (cb_sink r)
+      | ORet => let r := run_callbacks_c cl dv rest in mkCb (true :: cb_ran r) (cb_logs r) (cb_sink r)
       | ORaise k =>
-          if catches dv cc_done_callback k then
-            let r := if cb_loop_breaks && d_cb_break dv then skip else run_callbacks dv rest in
+          if catches dv (c_done_callback cl) k then
+            let r := if c_cb_breaks cl && d_cb_break dv then skip else run_callbacks_c cl dv rest in
             mkCb (true :: cb_ran r) (LScript :: cb_logs r) (cb_sink r)
           else mkCb (true :: cb_ran skip) [] SkHeld
       end
   end.
+
+Definition run_callbacks := run_callbacks_c gen_classes.
 
 (* ---------- a history of occurrences against the triggers of one script ---------- *)
 Inductive occ := OUser (e : entry) (o : outcome) | OCallbacks (outs : list outcome).
@@ -137,26 +153,29 @@ Definition set_alive (m : alive_map) (e : entry) (b : bool) : alive_map := fun e
 Definition count_logger (l : logger) (ls : list logger) : N :=
   N.of_nat (length (filter (fun x => match x, l with LScript, LScript | LOther, LOther => true | _, _ => false end) ls)).
 
-Definition occ_step (dv : deviations) (sub : subsystem) (m : alive_map) (oc : occ) : alive_map * oobs :=
+Definition occ_step_c (cl : classes) (dv : deviations) (sub : subsystem) (m : alive_map) (oc : occ) : alive_map * oobs :=
   match oc with
   | OUser e o =>
       if m e then
-        let r := run_site dv sub e o in
+        let r := run_site_c cl dv sub e o in
         (set_alive m e (o_alive r), mkObs true (count_logger LScript (o_logs r)) (count_logger LOther (o_logs r)) (o_sink r) [])
       else (m, mkObs false 0 0 SkNone [])
   | OCallbacks outs =>
-      let r := run_callbacks dv outs in
+      let r := run_callbacks_c cl dv outs in
       (m, mkObs true (count_logger LScript (cb_logs r)) 0 (cb_sink r) (cb_ran r))
   end.
 
-Fixpoint run_history (dv : deviations) (sub : subsystem) (m : alive_map) (h : list occ) : alive_map * list oobs :=
+Fixpoint run_history_c (cl : classes) (dv : deviations) (sub : subsystem) (m : alive_map) (h : list occ) : alive_map * list oobs :=
   match h with
   | [] => (m, [])
   | oc :: r =>
-      let '(m1, ob) := occ_step dv sub m oc in
-      let '(m2, obs) := run_history dv sub m1 r in
+      let '(m1, ob) := occ_step_c cl dv sub m oc in
+      let '(m2, obs) := run_history_c cl dv sub m1 r in
       (m2, ob :: obs)
   end.
+
+Definition occ_step := occ_step_c gen_classes.
+Definition run_history := run_history_c gen_classes.
 
 (* ---------- Spec: what the property demands of one occurrence ---------- *)
 Definition raises (o : outcome) : bool := match o with ORet => false | ORaise _ => true end.
@@ -181,17 +200,19 @@ Fixpoint history_ok (h : list occ) (obs : list oobs) : bool :=
 (* ---------- script load: __init__.py load_scripts over GlobalContextMgr.load_file ---------- *)
 Record lres := mkL { l_loaded : list bool; l_script_logs : list N; l_sink : sink }.
 
-Fixpoint load_scripts (dv : deviations) (files : list outcome) : lres :=
+Fixpoint load_scripts_c (cl : classes) (dv : deviations) (files : list outcome) : lres :=
   match files with
   | [] => mkL [] [] SkNone
   | o :: rest =>
-      let r := fold_left (layer_step dv) [LCatchLogRaise cc_load_file; LCatchOther cc_load_scripts; LEnd SkHA] (start_of o) in
+      let r := fold_left (layer_step dv) [LCatchLogRaise (c_load_file cl); LCatchOther (c_load_scripts cl); LEnd SkHA] (start_of o) in
       let n := count_logger LScript (o_logs r) in
       if sink_none (o_sink r) then
-        let t := load_scripts dv rest in
+        let t := load_scripts_c cl dv rest in
         mkL (negb (raises o) :: l_loaded t) (n :: l_script_logs t) (l_sink t)
       else mkL (false :: map (fun _ => false) rest) (n :: map (fun _ => 0%N) rest) (o_sink r)
   end.
+
+Definition load_scripts := load_scripts_c gen_classes.
 
 Definition load_ok (files : list outcome) (r : lres) : bool :=
   sink_none (l_sink r)
